@@ -4,6 +4,7 @@
     [Print Assumptions]; the [Example]s show that the statements are not vacuous. *)
 From Coq Require Import List String Bool.
 From MV Require Import Base.Cmp Util.Diff Util.DiffProofs Util.DiffProofs2 Util.DiffProofs3 Util.DiffProofs4.
+From MV Require Util.DirHash Util.DirHashProofs Util.PackerDetect.
 Import ListNotations.
 Local Open Scope string_scope.
 Local Open Scope list_scope.
@@ -109,6 +110,52 @@ Theorem C18_node_types : forall a b, canone a = true -> canone b = true ->
 Proof. exact node_types. Qed.
 Print Assumptions C18_node_types.
 
+(** ** C18 + C19: the packer's change detection.
+
+    [PGPacker._prepare] / [check_dir_diff] compute [dir_hashsums] of the source directory and
+    compare with the stored table by [DirDiff.compare]; they update iff the diff is non-empty.
+    [DirHash.dir_hashsums] is C19's model, [PackerDetect.hs_to_dtree] reads its result as the
+    nested dict [DirDiff.compare] consumes (digest and ["symlink:..."] strings are both leaves).
+    Under C19's premises (a streaming hash whose one-shot digest is injective on the compared
+    payloads): the packer sees "no change" exactly when the two directories have equal content
+    (names, file bytes, normalised in-directory link targets, sub-directories) ... *)
+Theorem C18_C19_change_detected :
+  forall (state : Type) (init : state) (upd : state -> DirHash.bytes -> state)
+         (fin : state -> DirHash.digest),
+    (forall s x y, upd (upd s x) y = upd s (x ++ y)) ->
+    (forall s, upd s [] = s) ->
+    (forall x y, DirHash.oneshot state init upd fin x = DirHash.oneshot state init upd fin y -> x = y) ->
+    forall n al a b ha hb,
+      n > 0 -> DirHash.canonb a = true -> DirHash.canonb b = true ->
+      DirHash.no_outsideb a = true -> DirHash.no_outsideb b = true ->
+      DirHash.dir_hashsums state init upd fin n al a = Some ha ->
+      DirHash.dir_hashsums state init upd fin n al b = Some hb ->
+      (is_empty (dirdiff (Some (PackerDetect.hs_to_dtree ha)) (Some (PackerDetect.hs_to_dtree hb))) = true
+       <-> a = b).
+Proof. exact PackerDetect.change_detected. Qed.
+Print Assumptions C18_C19_change_detected.
+
+(** ... and a path is reported by the diff of the two tables iff the entries of the two
+    directories at that path differ (missing on one side, different kind, different bytes,
+    different link target, or directories with different content). *)
+Theorem C18_C19_changed_paths :
+  forall (state : Type) (init : state) (upd : state -> DirHash.bytes -> state)
+         (fin : state -> DirHash.digest),
+    (forall s x y, upd (upd s x) y = upd s (x ++ y)) ->
+    (forall s, upd s [] = s) ->
+    (forall x y, DirHash.oneshot state init upd fin x = DirHash.oneshot state init upd fin y -> x = y) ->
+    forall n al a b ha hb,
+      n > 0 -> DirHash.canonb a = true -> DirHash.canonb b = true ->
+      DirHash.no_outsideb a = true -> DirHash.no_outsideb b = true ->
+      DirHash.dir_hashsums state init upd fin n al a = Some ha ->
+      DirHash.dir_hashsums state init upd fin n al b = Some hb ->
+      forall q,
+        (exists nd, In nd (listing (dirdiff (Some (PackerDetect.hs_to_dtree ha))
+                                            (Some (PackerDetect.hs_to_dtree hb)))) /\ npath nd = q)
+        <-> DirHash.tlookup a q <> DirHash.tlookup b q.
+Proof. exact PackerDetect.changed_paths. Qed.
+Print Assumptions C18_C19_changed_paths.
+
 (** ** Non-vacuity: a pair with a removed directory, a file -> directory replacement,
     an unchanged file and an added directory. *)
 
@@ -174,4 +221,22 @@ Example ex_types :
    (Some TFile, Some TDir); (None, Some TSym); (Some TDir, Some TDir);
    (None, Some TDir); (None, Some TFile)] /\
   leafoke ex_prev = true /\ leafoke ex_curr = true.
+Proof. vm_compute. repeat split; reflexivity. Qed.
+
+(** the composition on two directories (runner instance of the hash: digest = content): one
+    byte of [a] edited, a link retargeted, a file replaced by a link to an equal file, an
+    empty directory added; [x] is untouched and not reported *)
+Example ex_detect :
+  let fs c tg g := DirHash.Dir
+     [("a", DirHash.File (list_ascii_of_string c));
+      ("d", DirHash.Dir [("l", DirHash.Link (DirHash.In_ tg)); ("x", DirHash.File (list_ascii_of_string "same"))]);
+      ("g", g); ("x", DirHash.File (list_ascii_of_string "same"))] in
+  let t0 := fs "hello" ["x"] (DirHash.File (list_ascii_of_string "same")) in
+  let t1 := fs "hellp" ["d"; "x"] (DirHash.Link (DirHash.In_ ["x"])) in
+  let h t := option_map PackerDetect.hs_to_dtree (DirHash.dir_hashsums_id 4 DirHash.Sha256 t) in
+  DirHash.canonb t0 = true /\ DirHash.canonb t1 = true /\
+  DirHash.no_outsideb t0 = true /\ DirHash.no_outsideb t1 = true /\
+  is_empty (dirdiff (h t0) (h t0)) = true /\ is_empty (dirdiff (h t0) (h t1)) = false /\
+  map (fun n => (npath n, nstatus n)) (listing (dirdiff (h t0) (h t1))) =
+  [(["a"], Modified); (["d"; "l"], Modified); (["d"], Modified); (["g"], Modified); ([], Modified)].
 Proof. vm_compute. repeat split; reflexivity. Qed.
